@@ -41,6 +41,12 @@ def rand_node(rng: random.Random, depth: int, want_async: Optional[bool] = None)
     ops = []
     for _ in range(rng.randint(0, 5)):
         op = rng.choice(SYNC_OPS + (ASYNC_OPS if is_async else []))
+        if op == "push_bound" and depth > 1 and rng.random() < 0.5:
+            # the bound method of an object that is itself an exit stack with registrations of its own
+            sub = {"kind": "stack", "async": False, "tx": True,
+                   "ops": [["enter_context", rand_node(rng, depth - 2, want_async=False)], ["callback", None]]}
+            ops.append(["push_bound_stack", sub])
+            continue
         if op in ("enter_context", "push_mgr"):
             ops.append([op, rand_node(rng, depth - 1, want_async=False)])
         elif op in ("enter_async_context", "push_async_exit_mgr"):
@@ -182,6 +188,12 @@ class Builder:
             return m
         # exit stack
         st: Any = contextlib.AsyncExitStack() if node["async"] else contextlib.ExitStack()
+        if node.get("tx"):
+            # an exit stack of the application's own (a unit of work) whose clean-up method is not called __exit__
+            class Tx(contextlib.ExitStack):
+                def rollback(s, *a):
+                    return False
+            st = Tx()
         node["_tag"] = self.tag(st, "m")
         for op in node["ops"]:
             name, child = op[0], op[1]
@@ -202,6 +214,9 @@ class Builder:
                         return False
                 op.append(self.tag(exit_fn, "f"))
                 (st.push if name == "push_fn" else st.push_async_exit)(exit_fn)
+            elif name == "push_bound_stack":
+                tx = self.build(child)
+                st.push(tx.rollback)
             elif name == "push_bound":
                 class Holder:
                     def my_exit(s, *a):
@@ -239,7 +254,7 @@ class Builder:
         return st
 
 
-METHOD = {"callback_probe": "callback", "enter_context": "enter_context", "push_mgr": "enter_context", "push_fn": "push", "push_bound": "push", "push_builtin_bound": "push", "push_builtin_fn": "push",
+METHOD = {"callback_probe": "callback", "enter_context": "enter_context", "push_mgr": "enter_context", "push_fn": "push", "push_bound": "push", "push_bound_stack": "push", "push_builtin_bound": "push", "push_builtin_fn": "push",
           "callback": "callback",
           "enter_async_context": "enter_async_context", "push_async_exit_mgr": "enter_async_context",
           "push_async_exit_fn": "push_async_exit", "push_async_callback": "push_async_callback"}
@@ -488,6 +503,8 @@ class C09(PropCheck):
                     if op[1] is not None and op[1]["kind"] == "plain" and op[1].get("style") and not op[1].get("block"):
                         # what contextlib stores is a method object whose __func__ goes by another name
                         name = "enter_async_context_aliased" if name in ASYNC_OPS else "enter_context_aliased"
+                    if name == "push_bound_stack":
+                        name = "push_bound"          # (for the registration model: a bound method of some object)
                     case["_ops"].append([name, int(t[1:])])
                 kids = []
                 for k in got[4]:
